@@ -162,7 +162,9 @@ theorem run_eq_spec (w : Widths) (chunk : Nat) (shards : List (List Rec)) (h : 0
   unfold run
   split
   · rename_i hempty
-    have hnil : shards.flatten = [] := by simpa using hempty
+    have hnil : shards.flatten = [] := by
+      rw [Bool.and_eq_true] at hempty
+      exact List.isEmpty_iff.mp hempty.2
     rw [hnil]
     have hz : ∀ b, specBucket w [] b = 0 := by
       intro b; simp [specBucket, dedupKeys]
@@ -170,38 +172,94 @@ theorem run_eq_spec (w : Widths) (chunk : Nat) (shards : List (List Rec)) (h : 0
   · exact pipeline_eq_spec w chunk id shards.flatten [] shards id [] h (by simp) (by simp) (by simp)
       (by intro r _ r' _ h; exact h) (by intro rows; simp) (by simp)
 
-/-- Whenever the modelled query completes, its result is the specification. -/
-theorem runOutcome_eq_spec (w : Widths) (chunk : Nat) (shards : List (List Rec)) (h : 0 < shards.length)
-    (res : List Nat) (hres : runOutcome w chunk shards = some res) : res = spec w shards.flatten := by
-  unfold runOutcome at hres
+/-- With the repaired code every shard takes part in every collective step, whatever it holds. -/
+theorem collSteps_allJoin (n : Nat) (obs : List Counts) (hn : 0 < n) (hobs : obs.length = n) :
+    allJoin (obs.map (collSteps n)) = true := by
+  by_cases h1 : n = 1
+  · subst h1
+    match obs, hobs with
+    | [c], _ => simp [allJoin, collSteps]; split <;> rfl
+  · have hall : ∀ c, collSteps n c = ([.inputShuffle, .reshardByPrf, .aggShuffle, .finalize], .ok) := by
+      intro c; simp [collSteps, h1]
+    cases obs with
+    | nil => rfl
+    | cons c cs => simp [allJoin, hall]
+
+/-- **C01, completion (F8 repaired).** For every input, every number of shards ≥ 1, every assignment
+of the reports to the shards — including shards without any row — and whatever row counts the shards
+observe after the two shuffles and after pairing (shards running empty at any stage), the query
+completes and its result is the in-the-clear specification. -/
+theorem query_completes_with_spec (w : Widths) (chunk : Nat) (shards : List (List Rec)) (obs : List Counts)
+    (h : 0 < shards.length) (hobs : obs.length = shards.length) :
+    runOutcome w chunk shards obs = some (spec w shards.flatten) := by
+  unfold runOutcome runOutcomeWith
+  rw [collSteps_allJoin shards.length obs h hobs, if_pos rfl, run_eq_spec w chunk shards h]
+
+/-- the counts of the canonical run are admissible observations -/
+theorem canonicalCounts_length (w : Widths) (shards : List (List Rec)) :
+    (canonicalCounts w shards).length = shards.length := by
+  simp [canonicalCounts]
+
+/-- Whenever the modelled query completes — repaired or not — its result is the specification. -/
+theorem runOutcome_eq_spec (steps : Counts → List Coll × Exit) (w : Widths) (chunk : Nat) (shards : List (List Rec))
+    (obs : List Counts) (h : 0 < shards.length)
+    (res : List Nat) (hres : runOutcomeWith steps w chunk shards obs = some res) : res = spec w shards.flatten := by
+  unfold runOutcomeWith at hres
   split at hres
-  · cases hres
   · cases hres; exact run_eq_spec w chunk shards h
+  · cases hres
 
-/-- The full statement of C01 (every query completes with the specification) is FALSE of the code as it
-is: known finding F8. With two shards and all reports on the first, the query never completes. -/
-theorem runOutcome_noEmptyShard_counterexample :
-    runOutcome { bkW := 8, vW := 3, hvW := 32, buckets := 256 } 8
-      [[⟨1, 2, 0⟩, ⟨1, 0, 3⟩, ⟨2, 2, 0⟩, ⟨2, 0, 4⟩], []] = none := by
-  decide
+/-- Documentation of known finding F8 (now repaired): the statement above was FALSE of the code as it
+was. With two shards and all four reports on the first, the second shard returned at once and the first
+waited for it in the input shuffle forever — whatever the first shard observed later. -/
+theorem runOutcomeUnfixed_counterexample (c0 c1 : Counts) (h0 : c0.entry = 4) (h1 : c1.entry = 0) :
+    runOutcomeUnfixed { bkW := 8, vW := 3, hvW := 32, buckets := 256 } 8
+      [[⟨1, 2, 0⟩, ⟨1, 0, 3⟩, ⟨2, 2, 0⟩, ⟨2, 0, 4⟩], []] [c0, c1] = none := by
+  have e1 : collStepsUnfixed c1 = ([], .ok) := by simp [collStepsUnfixed, h1]
+  have e0 : collStepsUnfixed c0 ≠ ([], .ok) := by
+    simp only [collStepsUnfixed, h0]
+    repeat' split
+    all_goals simp_all
+  unfold runOutcomeUnfixed runOutcomeWith
+  rw [if_neg]
+  simp only [List.map_cons, List.map_nil, allJoin, e1, List.all_cons, List.all_nil, Bool.and_true, Bool.and_eq_true,
+    beq_iff_eq, not_and]
+  intro _ h; exact e0 h.symm
 
-/-- `pipeline_eq_spec_partial`: the property restricted to executions in which no shard is left
-without rows (hypothesis excluded by F8) — every such execution completes with the specification. -/
-theorem pipeline_eq_spec_partial (w : Widths) (chunk : Nat) (shards : List (List Rec)) (h : 0 < shards.length)
-    (hne : ∀ s ∈ shards, s ≠ []) : runOutcome w chunk shards = some (spec w shards.flatten) := by
-  have : shards.any (·.isEmpty) = false := by
-    simp only [List.any_eq_false, List.isEmpty_iff]
-    intro s hs; exact hne s hs
-  unfold runOutcome
-  simp only [this, Bool.and_false, Bool.false_and, Bool.false_eq_true, ↓reduceIte]
-  rw [run_eq_spec w chunk shards h]
+/-- … and so did a shard that the input shuffle, the pairing or the second shuffle left without rows
+although it had entered with rows (three shards with rows on entry; the last one has no pair). -/
+theorem runOutcomeUnfixed_counterexample_late :
+    allJoin ([⟨2, 2, 1, 1⟩, ⟨2, 2, 1, 1⟩, ⟨1, 1, 0, 0⟩].map collStepsUnfixed) = false ∧
+    allJoin ([⟨2, 3, 1, 1⟩, ⟨2, 0, 0, 0⟩].map collStepsUnfixed) = false ∧
+    allJoin ([⟨2, 2, 1, 2⟩, ⟨2, 2, 1, 0⟩].map collStepsUnfixed) = false := by decide
+
+/-- the pre-repair code did complete with the specification when no shard ran empty anywhere -/
+theorem runOutcomeUnfixed_of_nonempty (w : Widths) (chunk : Nat) (shards : List (List Rec)) (obs : List Counts)
+    (h : 0 < shards.length)
+    (hne : ∀ c ∈ obs, c.entry ≠ 0 ∧ c.afterShuffle1 ≠ 0 ∧ c.pairs ≠ 0 ∧ c.afterShuffle2 ≠ 0) :
+    runOutcomeUnfixed w chunk shards obs = some (spec w shards.flatten) := by
+  have hall : ∀ c ∈ obs, collStepsUnfixed c = ([.inputShuffle, .reshardByPrf, .aggShuffle, .finalize], .ok) := by
+    intro c hc
+    obtain ⟨a, b, c', d⟩ := hne c hc
+    simp [collStepsUnfixed, a, b, c', d]
+  have hj : allJoin (obs.map collStepsUnfixed) = true := by
+    cases obs with
+    | nil => rfl
+    | cons c cs =>
+      simp only [List.map_cons, allJoin, hall c (by simp), Bool.and_eq_true, List.all_eq_true, List.mem_map]
+      refine ⟨by decide, ?_⟩
+      rintro x ⟨y, hy, rfl⟩
+      simp [hall y (by simp [hy])]
+  unfold runOutcomeUnfixed runOutcomeWith
+  rw [hj, if_pos rfl, run_eq_spec w chunk shards h]
 
 /-- Non-vacuity: a 3-shard input with a duplicate conversion pair, a triple, a lone impression,
-colliding breakdown sums and wrap-around satisfies the hypotheses, and the result is not all zero. -/
+colliding breakdown sums and wrap-around, an EMPTY shard, and the canonical counts: the result is not all zero. -/
 example :
     let w : Widths := { bkW := 8, vW := 3, hvW := 8, buckets := 4 }
-    let shards : List (List Rec) := [[⟨1, 2, 0⟩, ⟨9, 0, 7⟩, ⟨5, 3, 0⟩], [⟨1, 0, 3⟩, ⟨9, 0, 7⟩, ⟨7, 1, 0⟩], [⟨7, 255, 0⟩, ⟨4, 1, 0⟩, ⟨7, 0, 1⟩, ⟨8, 2, 0⟩, ⟨8, 0, 5⟩]]
-    (∀ s ∈ shards, s ≠ []) ∧ runOutcome w 2 shards = some [6, 0, 8, 0] := by
+    let shards : List (List Rec) := [[⟨1, 2, 0⟩, ⟨9, 0, 7⟩, ⟨5, 3, 0⟩, ⟨1, 0, 3⟩, ⟨9, 0, 7⟩, ⟨7, 1, 0⟩], [], [⟨7, 255, 0⟩, ⟨4, 1, 0⟩, ⟨7, 0, 1⟩, ⟨8, 2, 0⟩, ⟨8, 0, 5⟩]]
+    runOutcome w 2 shards (canonicalCounts w shards) = some [6, 0, 8, 0] ∧
+    runOutcomeUnfixed w 2 shards (canonicalCounts w shards) = none := by
   decide
 
 end IpaVerif.C01
